@@ -27,6 +27,7 @@ func (fc *FnCtx) entryState() (*State, map[string]Term) {
 	for _, c := range fc.sortedComps() {
 		name := c + "!0"
 		fc.emit(fmt.Sprintf("(declare-const %s %s)", name, fc.comps[c]))
+		fc.declConst[name] = true
 		v := mk(name, fc.comps[c], nil)
 		st.heap[c] = v
 		fc.heapAxioms(v, c, st.nextID)
@@ -87,13 +88,13 @@ func (fc *FnCtx) generateOnce(res *FuncResult) *Frame {
 		fc.emit(fmt.Sprintf("(declare-const %s %s)", name, fc.sortOf(fv.Type())))
 		t := mk(name, fc.sortOf(fv.Type()), fv.Type())
 		fr.freeVars[fv] = t
-		vars[fv.Name()] = t
 		fc.assume(st, fc.allocInv(t, fv.Type(), st.nextID, 0))
+		fc.assume(st, tNot(mk(fmt.Sprintf("(is_PNull %s)", t.S), SBool, nil)))
 	}
 	fc.packageAxioms(st, pkgName)
 	entry := st.clone()
 	fr.entry = entry
-	env := &Env{fc: fc, st: st, old: entry, vars: vars, pkgName: pkgName}
+	env := &Env{fc: fc, fr: fr, st: st, old: entry, vars: vars, pkgName: pkgName}
 	if spec != nil {
 		for k, r := range spec.Requires {
 			t, err := fc.evalClause(env, r)
@@ -122,7 +123,7 @@ func (fc *FnCtx) generateOnce(res *FuncResult) *Frame {
 	if spec != nil {
 		sig := fn.Signature
 		rn := resultNames(spec, sig)
-		post := &Env{fc: fc, st: exit, old: entry, vars: map[string]Term{}, pkgName: pkgName}
+		post := &Env{fc: fc, fr: fr, st: exit, old: entry, vars: map[string]Term{}, pkgName: pkgName}
 		for k, v := range vars {
 			post.vars[k] = v
 		}
